@@ -314,14 +314,23 @@ func cp(b []byte) []byte { return append([]byte(nil), b...) }
 
 func (b *decoBatch) PutIfNotExist(key, val []byte, ttl int64) {
 	b.rec.Ops = append(b.rec.Ops, BatchOp{"pine", cp(key), cp(val), nil})
+	if b.d.NoTTL {
+		ttl = 0 // an engine without native TTL ignores the argument
+	}
 	b.BatchWrite.PutIfNotExist(key, val, ttl)
 }
 func (b *decoBatch) CAS(key, newVal, oldVal []byte, ttl int64) {
 	b.rec.Ops = append(b.rec.Ops, BatchOp{"cas", cp(key), cp(newVal), cp(oldVal)})
+	if b.d.NoTTL {
+		ttl = 0
+	}
 	b.BatchWrite.CAS(key, newVal, oldVal, ttl)
 }
 func (b *decoBatch) Put(key, val []byte, ttl int64) {
 	b.rec.Ops = append(b.rec.Ops, BatchOp{"put", cp(key), cp(val), nil})
+	if b.d.NoTTL {
+		ttl = 0
+	}
 	b.BatchWrite.Put(key, val, ttl)
 }
 func (b *decoBatch) Del(key []byte) {
